@@ -327,16 +327,23 @@ def pickCubeDD (choice : Nat → Bool) : BDD → BDD
     if c then .node l (pickCubeDD choice t) (.leaf false)
     else .node l (.leaf false) (pickCubeDD choice e)
 
+/-- `literal_set_pop` (local to `pick_cube_dd_set_edge`): drop the literals above level `until`,
+following the child that is not ⊥ -/
+def literalSetPop (set : BDD) (until_ : Nat) : BDD :=
+  match set with
+  | .node l t e => if l < until_ then (if t = .leaf false then literalSetPop e until_ else literalSetPop t until_) else set
+  | .leaf _ => set
+
 /-- `pick_cube_dd_set_edge` -/
 def pickCubeDDSet (f literalSet : BDD) : BDD :=
   match f with
   | .leaf b => .leaf b
   | .node l t e =>
-    let ls := setPop literalSet l
+    let ls := literalSetPop literalSet l
     let (ls', c) : BDD × Bool :=
       match ls with
       | .node sl st se =>
-        if sl = l then (if se = .leaf false then (se, true) else (st, false)) else (ls, false)
+        if sl = l then (if se = .leaf false then (st, true) else (se, false)) else (ls, false)
       | .leaf _ => (ls, false)
     let c := if t = .leaf false then false else if e = .leaf false then true else c
     if c then .node l (pickCubeDDSet t ls') (.leaf false)
